@@ -228,6 +228,7 @@ func C10(c *core.Ctx) {
 		}
 	})
 	c.AddTraces(int64(len(jobs)))
+	c10EndToEnd(c)
 	c.Extra["command_shapes"] = len(rows)
 	for _, i := range []int{0, len(jobs) / 2, len(jobs) - 1} {
 		c.Sample(map[string]any{"odd": jobs[i].row.odd, "nc": jobs[i].row.nc, "ne": jobs[i].row.ne, "suite": jobs[i].suite.Name, "spec_Nc'": jobs[i].row.ncP, "spec_lc": core.Hex(jobs[i].row.lc), "spec_le": core.Hex(jobs[i].row.le)})
@@ -245,3 +246,56 @@ func respDataFor(a chipsim.PlainCmd, sent []byte) []byte {
 }
 
 var _ = link.Pass
+
+// c10EndToEnd: "no command leaves unprotected" through whole reads (the Protection clause of Wire.tla): once the
+// chip has seen a protected command of a read, every later command of that read arrives protected - across PACE,
+// BAC and the change of session keys by Chip Authentication - and the counters agree at the end.
+func c10EndToEnd(c *core.Ctx) {
+	cfgs := []struct {
+		cfg sessCfg
+		opt sessOpt
+	}{
+		{sessCfg{"bac", []int{11}, "rsa", true, true, "genuine"}, sessOpt{false, false, "mrz"}},
+		{sessCfg{"pace+bac", []int{2, 13}, "none", true, true, "genuine"}, sessOpt{false, false, "can"}},
+		{sessCfg{"cam+bac", []int{13}, "ecdsa", true, true, "genuine"}, sessOpt{false, true, "mrz"}},
+		{sessCfg{"pace+bac", []int{11, 13}, "ecdsa", true, true, "genuine"}, sessOpt{true, false, "mrz"}},
+	}
+	n := core.Pick(c, 1, 4)
+	type job struct {
+		k int
+		v sessVariety
+	}
+	var jobs []job
+	for k := range cfgs {
+		for r := 0; r < n; r++ {
+			jobs = append(jobs, job{k, randomVariety(c.Rand)})
+		}
+	}
+	core.ParallelFor(len(jobs), func(i int) {
+		j := jobs[i]
+		p, err := personalise(cfgs[j.k].cfg, j.v)
+		if err != nil {
+			core.Infra("C10: personalise: %v", err)
+		}
+		o := runSession(p, cfgs[j.k].opt, j.v.MaxLe, nil, nil, j.v.Seed)
+		name := fmt.Sprintf("e2e %s | %s", cfgs[j.k].cfg, cfgs[j.k].opt)
+		c.Case(name+fmt.Sprint(j.v.Seed), true)
+		if o.err != "" {
+			return // C08's subject
+		}
+		inSession := false
+		for _, a := range o.truth.Accepted {
+			if a.Secured {
+				inSession = true
+			} else if inSession {
+				c.Violation("C10:plain-command-in-session-e2e", fmt.Sprintf("command %02X %02X %02X %02X reached the chip unprotected after the session had been installed (%s)", a.CLA, a.INS, a.P1, a.P2, name),
+					map[string]any{"config": cfgs[j.k].cfg, "index": a.Index})
+				break
+			}
+		}
+		if o.truth.SMFailures > 0 {
+			c.Violation("C10:chip-rejected-protected-command-e2e", fmt.Sprintf("the chip refused %d protected command(s) of a fault-free read (%s): %+v", o.truth.SMFailures, name, o.truth.SMFailureLog), map[string]any{"config": cfgs[j.k].cfg})
+		}
+	})
+	c.Extra["end_to_end_reads"] = len(jobs)
+}
